@@ -7,14 +7,18 @@
                   if e.cnt < 1 { delete(m.ma, key) }; m.ml.Unlock                           -> [ExitMap]
                   e.el.Unlock()                                                              -> [Release]
 
+     TryLock(key): m.ml.Lock (held for the whole call); e := m.ma[key] (created when absent);
+                  if !e.el.TryLock() { return nil, false }; e.cnt++; return e, true          -> [try_step]
+                  (one atomic section; handleReq tries first and falls back to Lock)
+
    Entries live on a heap (a deleted entry may still be referenced by the thread that is about
    to release its mutex); cnt is a uint16.  A thread is a program counter; a schedule is a list
    of (thread, key): the thread performs its next atomic section, the key is used only when the
    thread is outside and calls Lock(key).  A section that is not enabled (Acquire on a held
    mutex) is a no-op, so the quantification over all schedules covers every interleaving.
 
-   Model first, then the invariant and the theorems (all schedules, any number of threads below
-   2^16 -- the width of the counter). *)
+   Model first, then the invariant and the theorems (all schedules -- with TryLock: of (thread, key,
+   try) -- any number of threads below 2^16, the width of the counter). *)
 From Coq Require Import ZArith List Bool Lia.
 Import ListNotations.
 Open Scope Z_scope.
@@ -370,16 +374,157 @@ Lemma exec_inv sched : forall s, Inv s -> Inv (exec s sched).
 Proof. induction sched as [|a r IH]; intros s I; cbn; auto. apply IH. apply step_inv. exact I. Qed.
 
 (* ------------------------------------------------------------------ *)
-(* the theorems: every schedule of n < 2^16 threads                    *)
+(* TryLock                                                            *)
+
+(* TryLock(key) is ONE atomic section: m.ml is held for the whole call.
+
+     m.ml.Lock(); defer m.ml.Unlock()
+     e := m.ma[key]  (created when absent)
+     if !e.el.TryLock() { return nil, false }     -- taken: nothing is changed, no reference is kept
+     e.cnt++                                      -- reference of the new holder
+     return e, true
+
+   handleReq calls TryLock first and falls back to Lock when it fails (after asking for a replacement
+   reader loop), so a thread that is outside may call either; a failed TryLock leaves it outside. *)
+Definition try_step (s : mmap) (t : nat) (k : Z) : mmap :=
+  match lookup (tab s) k with
+  | Some e =>
+      if locked (heap s e) then s
+      else mkM (tab s) (updh (heap s) e (mkE (u16 (cnt (heap s e) + 1)) true)) (next s)
+               (updl t (Holding k e) (pcs s))
+  | None =>
+      (* a new entry: its mutex is free, the try succeeds *)
+      let e := next s in
+      mkM ((k, e) :: tab s) (updh (heap s) e (mkE (u16 (0 + 1)) true)) (S (next s))
+          (updl t (Holding k e) (pcs s))
+  end.
+
+(* a schedule step with the choice of the call: (thread, key, try).  The flag matters only when the
+   thread is outside (it then calls TryLock(key) instead of Lock(key)). *)
+Definition step2 (s : mmap) (a : nat * Z * bool) : mmap :=
+  let '(t, k, try) := a in
+  match nth_error (pcs s) t with
+  | Some Out => if try then try_step s t k else step s (t, k)
+  | _ => step s (t, k)
+  end.
+
+Definition exec2 (s : mmap) (sched : list (nat * Z * bool)) : mmap := fold_left step2 sched s.
+
+Lemma exec_as_exec2 sched : forall s, exec s sched = exec2 s (map (fun tk => (tk, false)) sched).
+Proof.
+  induction sched as [|[t k] r IH]; intros s; [reflexivity|]. cbn [exec exec2 fold_left map]. fold (exec (step s (t, k)) r).
+  rewrite IH. unfold exec2. f_equal. unfold step2. destruct (nth_error (pcs s) t) as [[]|]; reflexivity.
+Qed.
+
+(* did TryLock(k) of thread t succeed?  (the thread is outside before the call) *)
+Definition try_ok (s : mmap) (k : Z) : bool :=
+  match lookup (tab s) k with Some e => negb (locked (heap s e)) | None => true end.
+
+Lemma try_fail_noop s t k : try_ok s k = false -> try_step s t k = s.
+Proof. unfold try_ok, try_step. destruct (lookup (tab s) k) as [e|]; [|discriminate]. destruct (locked (heap s e)); [reflexivity|discriminate]. Qed.
+
+Lemma try_step_inv s t k : Inv s -> nth_error (pcs s) t = Some Out -> Inv (try_step s t k).
+Proof.
+  intros I Hn. unfold try_step. pose proof (i_small s I) as Hsmall.
+  destruct (lookup (tab s) k) as [e|] eqn:Hl.
+  - destruct (locked (heap s e)) eqn:Hlk; [exact I|].
+    destruct (i_cnt s I k e Hl) as [Hc Hp].
+    assert (Hlt : count (inside k) (pcs s) + 1 <= Z.of_nat (length (pcs s))).
+    { pose proof (count_updl (inside k) (pcs s) t Out (Waiting k e) Hn) as HU. cbn in HU. rewrite Z.eqb_refl in HU. cbn in HU.
+      pose proof (count_le_length (inside k) (updl t (Waiting k e) (pcs s))) as H2. rewrite length_updl in H2. lia. }
+    constructor; cbn.
+    + intros t' k' e' H. dnth t t'.
+      * destruct H as [H|H]; inversion H; subst. exact Hl.
+      * apply (i_ref s I t' k' e'). exact H.
+    + intros k' e' Hl'. rewrite (count_updl _ _ _ _ _ Hn). cbn.
+      unfold updh. destruct (Nat.eqb e' e) eqn:Ee.
+      * apply Nat.eqb_eq in Ee. subst e'. pose proof (i_inj s I k k' e Hl Hl'). subst k'.
+        rewrite Z.eqb_refl. cbn. rewrite Hc. rewrite u16_small by lia. lia.
+      * destruct (k =? k') eqn:Ek.
+        -- apply Z.eqb_eq in Ek. subst k'. rewrite Hl in Hl'. inversion Hl'; subst. rewrite Nat.eqb_refl in Ee. discriminate.
+        -- cbn. destruct (i_cnt s I k' e' Hl'). lia.
+    + apply (i_inj s I).
+    + apply (i_lt s I).
+    + intros e'. rewrite (count_updl _ _ _ _ _ Hn). cbn. unfold updh.
+      rewrite Nat.eqb_sym. destruct (Nat.eqb e' e) eqn:Ee; cbn.
+      * apply Nat.eqb_eq in Ee. subst. rewrite (i_own s I e). rewrite Hlk. cbn. lia.
+      * rewrite (i_own s I e'). lia.
+    + intros e' He'. unfold updh. destruct (Nat.eqb e' e) eqn:Ee; cbn; [|apply (i_fresh s I); exact He'].
+      apply Nat.eqb_eq in Ee. subst. pose proof (i_lt s I k e Hl). lia.
+    + rewrite (count_updl _ _ _ _ _ Hn). cbn. rewrite (i_nopanic s I). lia.
+    + rewrite length_updl. exact Hsmall.
+  - assert (Hz : count (inside k) (pcs s) = 0).
+    { destruct (Z.eq_dec (count (inside k) (pcs s)) 0) as [|Hne]; auto.
+      pose proof (count_nonneg (inside k) (pcs s)).
+      destruct (count_pos_ex (inside k) (pcs s) ltac:(lia)) as (t' & x & Hn' & Hx).
+      destruct x; cbn in Hx; try discriminate; apply Z.eqb_eq in Hx; subst;
+        [ pose proof (i_ref s I t' k e (or_introl Hn')) | pose proof (i_ref s I t' k e (or_intror Hn')) ]; congruence. }
+    constructor; cbn.
+    + intros t' k' e' H. dnth t t'.
+      * destruct H as [H|H]; inversion H; subst. rewrite Z.eqb_refl. reflexivity.
+      * pose proof (i_ref s I t' k' e' H) as HR. destruct (k' =? k) eqn:E; auto.
+        apply Z.eqb_eq in E. subst. congruence.
+    + intros k' e' Hl'. rewrite (count_updl _ _ _ _ _ Hn). cbn. unfold updh.
+      destruct (k' =? k) eqn:Ek.
+      * inversion Hl'; subst e'. apply Z.eqb_eq in Ek. subst k'. rewrite Nat.eqb_refl. rewrite Z.eqb_refl. cbn.
+        rewrite Hz. unfold u16. lia.
+      * pose proof (i_lt s I k' e' Hl') as Hlt. destruct (Nat.eqb e' (next s)) eqn:Ee.
+        -- apply Nat.eqb_eq in Ee. lia.
+        -- rewrite Z.eqb_sym. rewrite Ek. cbn. destruct (i_cnt s I k' e' Hl'). lia.
+    + intros k1 k2 e'. destruct (k1 =? k) eqn:E1; destruct (k2 =? k) eqn:E2; intros H1 H2.
+      * apply Z.eqb_eq in E1, E2. congruence.
+      * inversion H1; subst. pose proof (i_lt s I k2 _ H2). lia.
+      * inversion H2; subst. pose proof (i_lt s I k1 _ H1). lia.
+      * apply (i_inj s I k1 k2 e' H1 H2).
+    + intros k' e'. destruct (k' =? k); intros H.
+      * inversion H; subst. lia.
+      * pose proof (i_lt s I k' e' H). lia.
+    + intros e'. rewrite (count_updl _ _ _ _ _ Hn). cbn. unfold updh.
+      rewrite Nat.eqb_sym. destruct (Nat.eqb e' (next s)) eqn:Ee; cbn.
+      * apply Nat.eqb_eq in Ee. subst. rewrite (i_own s I (next s)). rewrite (i_fresh s I (next s)); [cbn; lia | lia].
+      * rewrite (i_own s I e'). lia.
+    + intros e' He'. unfold updh. destruct (Nat.eqb e' (next s)) eqn:Ee; cbn.
+      * apply Nat.eqb_eq in Ee. lia.
+      * apply (i_fresh s I). lia.
+    + rewrite (count_updl _ _ _ _ _ Hn). cbn. rewrite (i_nopanic s I). lia.
+    + rewrite length_updl. exact Hsmall.
+Qed.
+
+Lemma step2_inv s a : Inv s -> Inv (step2 s a).
+Proof.
+  intros I. destruct a as [[t k] try]. unfold step2.
+  destruct (nth_error (pcs s) t) as [x|] eqn:Hn; [|apply step_inv; exact I].
+  destruct x; try (apply step_inv; exact I).
+  destruct try; [apply try_step_inv; assumption|apply step_inv; exact I].
+Qed.
+
+Lemma exec2_inv sched : forall s, Inv s -> Inv (exec2 s sched).
+Proof. induction sched as [|a r IH]; intros s I; cbn; auto. apply IH. apply step2_inv. exact I. Qed.
+
+(* a successful TryLock puts the caller into the critical section at once and takes exactly one
+   reference; a failed one changes nothing at all (in particular: no reference is left behind) *)
+Lemma try_step_result s t k : nth_error (pcs s) t = Some Out ->
+  if try_ok s k
+  then exists e, nth_error (pcs (try_step s t k)) t = Some (Holding k e) /\ lookup (tab (try_step s t k)) k = Some e
+  else try_step s t k = s.
+Proof.
+  intros Hn. destruct (try_ok s k) eqn:E; [|apply try_fail_noop; exact E].
+  unfold try_ok in E. unfold try_step. destruct (lookup (tab s) k) as [e|] eqn:Hl.
+  - destruct (locked (heap s e)); [discriminate|]. exists e. cbn. split; [eapply nth_updl_same; exact Hn|exact Hl].
+  - exists (next s). cbn. rewrite Z.eqb_refl. split; [eapply nth_updl_same; exact Hn|reflexivity].
+Qed.
+
+(* ------------------------------------------------------------------ *)
+(* the theorems: every schedule (Lock, TryLock, Unlock) of n < 2^16 threads *)
 
 Section Theorems.
 Variable n : nat.
 Hypothesis Hn : Z.of_nat n < 65536.
-Variable sched : list (nat * Z).
-Let s := exec (init n) sched.
+Variable sched : list (nat * Z * bool).
+Let s := exec2 (init n) sched.
 
 Lemma reach_inv : Inv s.
-Proof. apply exec_inv. apply inv_init. exact Hn. Qed.
+Proof. apply exec2_inv. apply inv_init. exact Hn. Qed.
 
 (* the entry for k exists iff its reference count is positive, and the count is the number of
    threads between the map section of Lock(k) and the map section of Unlock *)
